@@ -2,3 +2,4 @@ import Proofs.Map
 import Proofs.Toks
 import Proofs.Structure
 import Proofs.Range
+import Proofs.TypePlan
